@@ -76,4 +76,20 @@ def check_name_capture(chk):
                           "generated class templates use `%s` unqualified where a schema member of that name is in scope, and "
                           "no validator rejects a field/group/data named `%s`: accepted schema, header does not compile"
                           % (ident, ident))
+    # a schema <type> becomes a class derived from required_base/optional_base; its own name hides the inherited
+    # member of the same name (injected-class-name / constructor), and the templates call v.value() on such objects
+    uses_value = None
+    for fc in gen.format_calls(f):
+        if fc.kind == "format" and fc.template and re.search(r"\bv\.value\(\)", gen.render_literal_text(fc.template)):
+            uses_value = fc.where
+            break
+    if uses_value:
+        key = "capture:value"
+        if "value" in rejected:
+            chk.ok("G-NAME.capture", key, {"identifier": "value", "rejected_by_validator": True})
+        else:
+            chk.violation("G-NAME.capture", key, uses_value,
+                          "generated setters call `v.value()` on the schema type's class; a <type name='value'> yields "
+                          "`class value : required_base<..., value>` in which `value` names the constructor, and no validator "
+                          "rejects that name: accepted schema, header does not compile")
     chk.floor("capture candidates", len(exposed), 2)
